@@ -468,6 +468,77 @@ impl<'tcx> Cx<'tcx> {
         self.extern_queue.push_back((did, self.cur_depth + 1));
     }
 
+    /// Instance-driven discovery of library bodies: calls inside *generic* library code (`Iterator::fold` calling
+    /// `Self::next`) cannot be resolved from the generic body alone.  Starting from a local function, callee
+    /// generic arguments are instantiated with the arguments of the instance being walked, resolved, and the
+    /// resolved library function is queued for dumping (adapter `next`s, closure shims, ...).
+    fn discover_instances(&mut self, root: DefId) {
+        let tcx = self.tcx;
+        if !matches!(tcx.def_kind(root), DefKind::Fn | DefKind::AssocFn | DefKind::Closure) {
+            return;
+        }
+        let env = TypingEnv::post_analysis(tcx, root);
+        let root_args = ty::GenericArgs::identity_for_item(tcx, root);
+        let root_inst = Instance::new_raw(root, root_args);
+        let mut work: Vec<(Instance<'tcx>, u32)> = vec![(root_inst, 0)];
+        let mut seen: HashSet<Instance<'tcx>> = HashSet::new();
+        let mut budget = 400;
+        while let Some((inst, depth)) = work.pop() {
+            if budget == 0 {
+                break;
+            }
+            budget -= 1;
+            let did = inst.def_id();
+            if !did.is_local() && !tcx.is_mir_available(did) {
+                continue;
+            }
+            if !matches!(inst.def, ty::InstanceKind::Item(_)) {
+                continue;
+            }
+            let body = tcx.instance_mir(inst.def);
+            for bb in body.basic_blocks.iter() {
+                let term = match &bb.terminator {
+                    Some(t) => t,
+                    None => continue,
+                };
+                if let TerminatorKind::Call { func, .. } = &term.kind {
+                    if let Some((cdid, cargs)) = func.const_fn_def() {
+                        let cargs2 = match tcx.try_instantiate_and_normalize_erasing_regions(
+                            inst.args,
+                            env,
+                            ty::EarlyBinder::bind(cargs),
+                        ) {
+                            Ok(a) => a,
+                            Err(_) => continue,
+                        };
+                        let r = std::panic::catch_unwind(std::panic::AssertUnwindSafe(|| {
+                            Instance::try_resolve(tcx, env, cdid, cargs2)
+                        }));
+                        if let Ok(Ok(Some(ci))) = r {
+                            let d = match ci.def {
+                                ty::InstanceKind::Item(d) => d,
+                                ty::InstanceKind::ClosureOnceShim { call_once, .. } => call_once,
+                                _ => continue,
+                            };
+                            if d.is_local() {
+                                continue;
+                            }
+                            self.cur_depth = depth.min(EXTERN_MAX_DEPTH - 1);
+                            self.maybe_queue_extern(d);
+                            let p = self.path(d);
+                            if depth < EXTERN_MAX_DEPTH
+                                && EXTERN_PREFIXES.iter().any(|pre| p.starts_with(pre))
+                                && seen.insert(ci)
+                            {
+                                work.push((ci, depth + 1));
+                            }
+                        }
+                    }
+                }
+            }
+        }
+    }
+
     fn scalar_json(&mut self, s: Scalar, t: Ty<'tcx>) -> String {
         let tcx = self.tcx;
         match s {
@@ -1215,6 +1286,12 @@ impl Callbacks for Cb {
             if matches!(tcx.def_kind(did), DefKind::Struct | DefKind::Enum | DefKind::Union) {
                 cx.note_adt(did);
             }
+        }
+        // library bodies reached only through generic library code (instance-driven)
+        for ldid in tcx.hir_body_owners() {
+            let did = ldid.to_def_id();
+            let r = std::panic::catch_unwind(std::panic::AssertUnwindSafe(|| cx.discover_instances(did)));
+            let _ = r;
         }
         // extern bodies, breadth first
         let mut n_ext = 0;
